@@ -96,10 +96,24 @@ class Env(object):
             if self.P.debug:
                 buf = io.StringIO()
                 with contextlib.redirect_stderr(buf):
-                    return self.P.parse(text)
-            return self.P.parse(text)
+                    return _owned(self.P.parse(text))
+            return _owned(self.P.parse(text))
         except Exception as e:
             raise _escaped(text, e, self.P.debug)
+
+
+def _owned(r):
+    """The record parse() returns belongs to the caller, who may do with it what it likes: the checks get a copy, and the
+    object the library handed out is overwritten (a host replacing an error with a default, adding bookkeeping keys).  A library
+    that hands the same object out again shows it in the next outcome."""
+    if type(r) is not dict:
+        return r
+    mine = dict(r)
+    r.clear()
+    r['result'] = 'overwritten by the host'
+    r['error'] = None
+    r['note'] = [mine.get('error')]
+    return mine
 
 
 def ev(text, vars=None, cells=None, ranges=None, funcs=None, debug=None):
@@ -125,8 +139,8 @@ def pev(text):
     try:
         if P.debug:
             with contextlib.redirect_stderr(io.StringIO()):
-                return P.parse(text)
-        return P.parse(text)
+                return _owned(P.parse(text))
+        return _owned(P.parse(text))
     except Exception as e:
         raise _escaped(text, e, P.debug)
 
